@@ -276,9 +276,10 @@ Section Groups.
         rewrite LK, fold_left_app. cbn [fold_left].
         destruct (in_dec rowkey_dec k (map key rows)) as [I|N]; [reflexivity|].
         assert (E : group_rows k rows = []).
-        { unfold group_rows. apply (proj2 (List.filter_nil _ _) ). intros x Hx.
-          destruct (rowkey_eqb (key x) k) eqn:E; [|reflexivity]. apply rowkey_eqb_eq in E.
-          exfalso. apply N. rewrite <- E. now apply in_map. }
+        { unfold group_rows. clear -N. induction rows as [|x t IHt]; [reflexivity|].
+          cbn [filter]. destruct (rowkey_eqb (key x) k) eqn:E.
+          - apply rowkey_eqb_eq in E. exfalso. apply N. rewrite <- E. now left.
+          - apply IHt. intros H. apply N. now right. }
         rewrite E. reflexivity.
       + rewrite LK. destruct (rowkey_dec k k'); [congruence|]. rewrite app_nil_r.
         destruct (in_dec rowkey_dec k' (map key rows)) as [I|N], (in_dec rowkey_dec k' (map key rows ++ [k])) as [I'|N'];
@@ -326,4 +327,115 @@ Proof.
   intros gs.
   destruct (gfold_spec (group_key gcols) (aggs_update2 m aggs) (aggs_init2 aggs) rows) as (A & B & C).
   split; [exact A|split; [exact B|]]. intros k sts H. apply C in H. exact H.
+Qed.
+
+(** * the operators *)
+Lemma simple_agg2_single m f t cs :
+  simple_agg2 m [f] [t] cs
+  = if st_panic (fold_one m f (rows_of cs)) then Panic
+    else Ok [[push_typed t (agg_final (fold_one m f (rows_of cs)))]].
+Proof.
+  unfold simple_agg2. rewrite fold_aggs_map. cbn [map existsb orb final_row combine fst snd].
+  destruct (st_panic (fold_one m f (rows_of cs))); reflexivity.
+Qed.
+
+Lemma count_star2_l m cs :
+  simple_agg2 m [FCountStar] [TInt] cs = Ok [[VInt (Z.of_nat (length (rows_of cs)))]].
+Proof. rewrite simple_agg2_single, fold_count_star. reflexivity. Qed.
+Lemma count_col2_l m c cs :
+  simple_agg2 m [FCount c] [TInt] cs = Ok [[VInt (Z.of_nat (length (col_vals c (rows_of cs))))]].
+Proof. rewrite simple_agg2_single, fold_count. reflexivity. Qed.
+
+Lemma sum_spec_l c cs :
+  let vs := col_vals c (rows_of cs) in
+  forallb sum_dom vs = true -> partial_ok (- two63) (two63 - 1) 0 (ints_of_vals vs) = true ->
+  simple_agg2 Checked [FSum c] [TInt] cs = Ok [[VInt (zsum (ints_of_vals vs))]].
+Proof.
+  intros vs D P. rewrite simple_agg2_single, (fold_one_col Checked (FSum c) c) by reflexivity.
+  cbn [agg_init]. fold vs. rewrite (step_sum_checked vs 0 D P). reflexivity.
+Qed.
+Lemma sum_overflow_refuted_l : exists cs,
+  simple_agg2 Checked [FSum 0%nat] [TInt] cs = Panic
+  /\ simple_agg2 Wrapping [FSum 0%nat] [TInt] cs = Ok [[VInt (- two63)]].
+Proof. exists [mkChunk [[VInt (two63 - 1)]; [VInt 1]] None]. split; vm_compute; reflexivity. Qed.
+
+Lemma avg_spec_l m c cs :
+  let vs := col_vals c (rows_of cs) in
+  let l := ints_of_vals vs in
+  forallb sum_dom vs = true -> forallb (fun i => Z.abs i <=? two53) l = true ->
+  partial_ok (- two53) two53 0 l = true ->
+  simple_agg2 m [FAvg c] [TFloat] cs
+  = Ok [[match l with [] => VNull | _ => VFloat (f_of_ratio (zsum l) (Z.of_nat (length l))) end]].
+Proof.
+  intros vs l D B P. rewrite simple_agg2_single, (fold_one_col m (FAvg c) c) by reflexivity.
+  cbn [agg_init]. fold vs. rewrite (step_avg m vs 0 0 D B P). fold l. cbn [st_panic agg_final Z.add].
+  destruct l as [|x t]; [reflexivity|]. cbn [length].
+  destruct (Z.of_nat (S (length t)) =? 0) eqn:E; [apply Z.eqb_eq in E; lia|reflexivity].
+Qed.
+
+Lemma min_spec_l m c cs :
+  let vs := col_vals c (rows_of cs) in
+  all_ints vs = true ->
+  simple_agg2 m [FMin c] [TInt] cs
+  = Ok [[match zmin_list (ints_of_vals vs) with Some z => VInt z | None => VNull end]].
+Proof.
+  intros vs H. rewrite simple_agg2_single, (fold_one_col m (FMin c) c) by reflexivity.
+  cbn [agg_init]. fold vs. rewrite (fold_min_ints m vs H).
+  destruct (zmin_list (ints_of_vals vs)); reflexivity.
+Qed.
+Lemma max_spec_l m c cs :
+  let vs := col_vals c (rows_of cs) in
+  all_ints vs = true ->
+  simple_agg2 m [FMax c] [TInt] cs
+  = Ok [[match zmax_list (ints_of_vals vs) with Some z => VInt z | None => VNull end]].
+Proof.
+  intros vs H. rewrite simple_agg2_single, (fold_one_col m (FMax c) c) by reflexivity.
+  cbn [agg_init]. fold vs. rewrite (fold_max_ints m vs H).
+  destruct (zmax_list (ints_of_vals vs)); reflexivity.
+Qed.
+Lemma zmin_list_spec l z : zmin_list l = Some z -> In z l /\ forall x, In x l -> z <= x.
+Proof.
+  destruct l as [|a t]; [discriminate|]. cbn [zmin_list]. intros H. injection H as <-.
+  destruct (fold_min_le t a) as (A & B & C). split.
+  - destruct C as [->|C]; [now left|now right].
+  - intros x [<-|H]; [exact A|now apply B].
+Qed.
+Lemma zmax_list_spec l z : zmax_list l = Some z -> In z l /\ forall x, In x l -> x <= z.
+Proof.
+  destruct l as [|a t]; [discriminate|]. cbn [zmax_list]. intros H. injection H as <-.
+  destruct (fold_max_ge t a) as (A & B & C). split.
+  - destruct C as [->|C]; [now left|now right].
+  - intros x [<-|H]; [exact A|now apply B].
+Qed.
+
+Lemma collect_spec_l m c cs :
+  simple_agg2 m [FCollect c] [TAny] cs = Ok [[VList (col_vals c (rows_of cs))]].
+Proof.
+  rewrite simple_agg2_single, (fold_one_col m (FCollect c) c) by reflexivity.
+  cbn [agg_init]. rewrite step_collect. reflexivity.
+Qed.
+Lemma push_typed_any v : push_typed TAny v = v.
+Proof. destruct v; reflexivity. Qed.
+Lemma first_last_spec_l m c cs :
+  let vs := col_vals c (rows_of cs) in
+  simple_agg2 m [FFirst c; FLast c] [TAny; TAny] cs
+  = Ok [[match vs with [] => VNull | v :: _ => v end; match vs with [] => VNull | _ => last vs VNull end]].
+Proof.
+  intros vs. unfold simple_agg2. rewrite fold_aggs_map. cbn [map].
+  rewrite (fold_one_col m (FFirst c) c), (fold_one_col m (FLast c) c) by reflexivity.
+  cbn [agg_init]. fold vs. rewrite fold_first, step_last.
+  destruct vs as [|v t]; [reflexivity|].
+  cbn [existsb st_panic orb final_row combine map fst snd agg_final hd_error].
+  now rewrite !push_typed_any.
+Qed.
+
+(** a result whose type is not the one the output vector was created with is replaced by that
+    type's default value *)
+Lemma push_typed_ok t v : type_okb t v = true -> push_typed t v = v.
+Proof. destruct t, v; cbn; try discriminate; reflexivity. Qed.
+Lemma min_string_typed_refuted_l : exists cs v,
+  simple_agg2 Checked [FMin 0%nat] [TAny] cs = Ok [[v]] /\ v <> VInt 0
+  /\ simple_agg2 Checked [FMin 0%nat] [planner_type (FMin 0%nat)] cs = Ok [[VInt 0]].
+Proof.
+  exists [mkChunk [[VStr [98]]; [VStr [97]]] None], (VStr [97]). repeat split; try reflexivity. discriminate.
 Qed.
